@@ -107,5 +107,8 @@ PROFILES["C16"] = {"level": "exploration", "level_text": LEVEL_TEXT["C16"],
                    "components": {"real_code": ["net_transport.go", "commands.go", "util.go (msgpack helpers)"], "stubs": ["StreamLayer / net.Conn (SimStreamLayer)", "RPC consumer (recording handler)"],
                                   "replaced": ["goroutine scheduling at every Read/Write/Dial (seeded chooser)", "clock (synctest)"]}}
 
+# C17: the chaotic half (profile C17) and the calm half with brief link losses inside calls (profile C17b)
+PROFILES["C17"]["scenarios"] = [s1(quick_runs=1500, quick_budget_s=30), s1("C17b", quick_runs=1200, quick_budget_s=25, thorough_budget_s=600)]
+
 # C13: the partition half (profile C13) and the fault-free half (profile C13b)
 PROFILES["C13"]["scenarios"] = [s1(quick_runs=1800, quick_budget_s=35), s1("C13b", quick_runs=900, quick_budget_s=20, thorough_budget_s=600)]
